@@ -280,6 +280,13 @@ def make_cases(tier, sd):
     for limit in (1, 2):
         add("dup", mk({"a": ["b", "b", "c"], "b": ["c"], "c": []}, limit=limit), "random")
         add("dup", mk({"a": ["b", "a"], "b": []}, limit=limit), "random")
+    # contended gate under the controlled scheduler: more ready siblings than slots, so several
+    # goroutines are parked in the gate while slots are handed back in every order
+    for i in range(60 if quick else 600):
+        limit = 2 + i % 2
+        k = limit + 2 + i % 3
+        d = wide(k, shared=(i % 4 == 3))
+        add("gate", mk(d, limit=limit), "pct" if i % 2 else "random")
     # (3) free-running stress
     nstress = 40 if quick else 400
     for i in range(nstress):
@@ -299,6 +306,13 @@ def make_cases(tier, sd):
         if kind == 1 and i % 2:
             c["unknown"] = ["c", "f"]
         add("str", c, "stress", noise=i % 3, procs=[0, 1, 2, 16][i % 4])
+    # gate round trips: every leaf gives its slot up and takes one again many times. GOMAXPROCS
+    # above the number of CPUs (which stays the limit) lets goroutines that hold no slot run
+    # while the holders are descheduled -- what blocking target bodies do in a real build
+    for i in range(8 if quick else 60):
+        limit = 2 + i % 2
+        add("spin", mk(wide(16, shared=False), limit=limit), "stress", noise=(i // 2) % 2,
+            spin=20000, procs=(16 if i % 4 != 3 else 0))
     # high parallelism: siblings released together race for a shared, not yet registered dependency
     ncpu = os.cpu_count() or 2
     if ncpu >= 4:
@@ -380,7 +394,7 @@ def run_cases(binary, cases, wd):
 
 
 def to_p_line(t):
-    return {"id": t["id"], "cfg": t["cfg"], "events": [e for e in t["events"] if e["ev"] not in ("HarnessPanic", "StepBound")]}
+    return {"id": t["id"], "cfg": t["cfg"], "events": [{k: v for k, v in e.items() if k != "dump"} for e in t["events"] if e["ev"] not in ("HarnessPanic", "StepBound")]}
 
 
 def to_d_line(t):
